@@ -9,6 +9,8 @@ pub enum Outcome {
     Accepted(usize),
     Interrupted,
     Failed(ErrorKind),
+    /// an error return whose io::Error carries a structured payload (see `payload_error`)
+    FailedPayload(u8),
     Zero,
 }
 
@@ -28,6 +30,22 @@ pub struct Event {
 pub enum Fault {
     Err(ErrorKind),
     Zero,
+    /// io::Error::new(kind, payload) with a payload that is itself an error value of some library (see `payload_error`)
+    Payload(u8),
+}
+
+/// An I/O failure whose payload is a structured error: a sink built on top of another component reports that component's
+/// error inside the io::Error (0/1: an fst ordering error, as a writer that feeds a second fst builder would; 2: an fst::Error::Io;
+/// 3: a nested io::Error; 4: a fmt::Error; 5: a raw fst format error). For the builder under test all of these are sink failures.
+pub fn payload_error(which: u8) -> io::Error {
+    match which % 6 {
+        0 => io::Error::new(ErrorKind::Other, fst::Error::Fst(fst::raw::Error::DuplicateKey { got: b"k".to_vec() })),
+        1 => io::Error::new(ErrorKind::InvalidData, fst::Error::Fst(fst::raw::Error::OutOfOrder { previous: b"b".to_vec(), got: b"a".to_vec() })),
+        2 => io::Error::new(ErrorKind::Other, fst::Error::Io(io::Error::new(ErrorKind::BrokenPipe, "inner"))),
+        3 => io::Error::new(ErrorKind::Other, io::Error::new(ErrorKind::Interrupted, "nested interrupted is still a failure of the outer call")),
+        4 => io::Error::new(ErrorKind::InvalidInput, std::fmt::Error),
+        _ => io::Error::new(ErrorKind::Other, fst::raw::Error::Format { size: 3 }),
+    }
 }
 
 #[derive(Clone, Debug)]
@@ -182,6 +200,7 @@ impl Write for Sink {
                 if call == i {
                     match f {
                         Fault::Err(k) => Outcome::Failed(k),
+                        Fault::Payload(w) => Outcome::FailedPayload(w),
                         Fault::Zero => Outcome::Zero,
                     }
                 } else {
@@ -193,6 +212,7 @@ impl Write for Sink {
                 if room == 0 {
                     match fault {
                         Fault::Err(k) => Outcome::Failed(k),
+                        Fault::Payload(w) => Outcome::FailedPayload(w),
                         Fault::Zero => Outcome::Zero,
                     }
                 } else {
@@ -213,6 +233,10 @@ impl Write for Sink {
             Outcome::Failed(k) => {
                 s.failed = true;
                 Err(io::Error::new(k, "injected fault"))
+            }
+            Outcome::FailedPayload(w) => {
+                s.failed = true;
+                Err(payload_error(w))
             }
             Outcome::Zero => {
                 s.failed = true;
